@@ -83,7 +83,7 @@ PROPERTIES: dict[str, dict] = {
 
 # package-wide API-misuse rules, reported under every property whose anchor files contain the offending function
 for _pid, _p in PROPERTIES.items():
-    for _r in (hygiene.rule_view_escape, hygiene.rule_observers_pure, hygiene.rule_reshape_order):
+    for _r in (hygiene.rule_view_escape, hygiene.rule_observers_pure, hygiene.rule_reshape_order, hygiene.rule_truthiness_defaults):
         if _r is hygiene.rule_view_escape and game.rule_c17_writers in _p["rules"]:
             continue          # C17 runs G6 unscoped
         if _r not in _p["rules"]:
